@@ -40,7 +40,7 @@ SPEC = dict(
          "implementation's own per-position scores (None only if every qualifying position was consumed; otherwise an "
          "unconsumed qualifying position with its exact score bits, >= every unconsumed qualifying score); any panic "
          "on a configured input. DIFF: consumed prefix, position and score bits against the extracted binary32 "
-         "model. Non-trivial: as C02, distinct also by the prefix list. Theorems (9): C03_max_after_prefix (any k: no "
+         "model. Non-trivial: as C02, distinct also by the prefix list. Theorems (11): C03_max_after_prefix (any k: no "
          "panic, None iff nothing unconsumed qualifies, else an unconsumed qualifying position with its exact score "
          "that dominates every unconsumed non-NaN score; the largest index among the maxima when no hit was buffered), "
          "C03_max_none_iff, C03_max_is_maximum (k = 0), C03_max_block_independent (k = 0: the answer, position "
@@ -48,7 +48,10 @@ SPEC = dict(
          "the extracted concrete model (every arm), with the order facts proved for Flocq's binary32 comparison and the "
          "layout hypotheses discharged: C03_concrete_max, C03_concrete_max_explicit (scores written out), "
          "C03_concrete_max_c08 (the numeric hypotheses reduced to C08's main clause per position, via coq/disc's "
-         "C08_scale_monotone_f32 and the sign of the factor, clear since the repair of F14b). The corpus holds boundary "
+         "C08_scale_monotone_f32 and the sign of the factor, clear since the repair of F14b), "
+         "C03_concrete_max_well_conditioned / C03_concrete_max_wc_checked (NO numeric hypothesis left for matrices with "
+         "finite non-wildcard cells that satisfy coq/disc's executable conditioning predicate, via DiscBridge.v; the "
+         "driver evaluates the predicate as wc_input on every lost maximum). The corpus holds boundary "
          "cases, the inputs on which the deliberate mutations of Scanner::max and the seeded changes were caught, the "
          "witnesses of the repaired defect F14b (must pass) and the witness of known finding F14-c03.",
     trusted_base=c02.COMMON_TRUSTED,
@@ -65,6 +68,9 @@ SPEC = dict(
         "from >=: hypotheses of the abstract theorems, proved for Flocq's binary32 Bcompare in coq/scan/F32Order.v "
         "and discharged in C03_concrete_max",
         "layout hypotheses (see C02): proved for the concrete model in ConcreteProofs.v for every well-formed input",
+        "conservativeness itself: a hypothesis of the abstract theorems and of C03_concrete_max / _explicit / _c08; a "
+        "theorem for the concrete model on well-conditioned matrices (C03_concrete_max_well_conditioned, importing coq/disc's "
+        "C08_f32_main_well_conditioned_partial through DiscBridge.v); false on ill-conditioned ones (known finding F14)",
         "input side conditions of the property: block size >= 1, motif not empty, sequence configured for the motif, "
         "no NaN among the non-wildcard matrix cells; a NaN threshold makes every comparison false (None is returned, "
         "consistent with the theorems: nothing qualifies)",
